@@ -29,6 +29,12 @@ CHECKS = {
                   "Tie: every count / iterator / index accessor / hierarchy accessor at every level, their _mut twins (tag through &mut, read back: each element exactly once) and par_ twins under pools of 1, 2, 3, 8, 16 threads, on ragged structures.",
              note="Thread schedules and raw-pointer aliasing of the *_mut tuples are not modelled: parallel/mutable variants are specified equal to the sequential ones and exercised by the tie only.",
              technique="Lean 4 list inductions (length/flatMap) + differential correspondence incl. thread pools", ref="DESIGN §7 C09"),
+ 'C11': dict(text="Theorems: at every level the sort result is ordered by the identifier, a permutation of the input, and stable (every ordered sub-sequence of the input survives in order); the full sort orders all five levels and permutes the atoms; "
+                  "renumbering yields model numbers, per-model atom serials and residue numbers 1,2,... in traversal order, cleared insertion codes, cleared altlocs in single-conformer residues and letter codes otherwise, letter-code chain ids; letter codes are pairwise distinct (number_to_base26 injective); renumbering is idempotent; "
+                  "bisection over a probe-partitioned list equals the linear scan (generic) and Conformer::binary_find_atom equals the linear scan on ascending serials. "
+                  "Tie: sort variants (sequential and parallel, pools 1-16) on structures with duplicate/unordered identifiers and many ties; renumber; every present and sampled absent (serial, altloc) query on renumbered structures, binary_find_atom and _mut; add_bond + bonds().",
+             note="PARTIAL: the four-level composition 'PDB::binary_find_atom = linear scan on every renumbered structure' is proved only in its generic bisection core and at conformer level; the chain/model/structure composition is decided by the correspondence and the oracle (exhaustive over present pairs). Parallel sorts are exercised, schedules not modelled.",
+             technique="Lean 4 (core mergeSort stability/permutation lemmas, inductions for renumber, bisection = find) + differential correspondence", ref="DESIGN §7 C11"),
 }
 NOT_APPLICABLE = {}
 ALL = ['C%02d' % i for i in range(1, 19)]
